@@ -140,8 +140,9 @@ ABSL_ATTRIBUTE_NOINLINE void GarbageCollector<R>::keep_reclaim() noexcept {
   ::std::vector<ReclaimTask> tasks;
   size_t backoff_us = 1000;
   tasks.reserve(batch);
-  while (running) {
-    if (index == tasks.size()) {
+  // 收到结束标记后，已取出的任务仍需等待其epoch可回收后全部执行完才能退出
+  while (running || index < tasks.size()) {
+    if (running && index == tasks.size()) {
       tasks.clear();
       running = consume_reclaim_task(batch, tasks);
       index = 0;
